@@ -178,7 +178,7 @@ func checkCancelOrder(p *Prog, r *Report, fn *ssa.Function, rule, rule3 string) 
 		}
 	}
 	isCancel := func(v ssa.Value) bool {
-		for _, o := range p.Origins(v) {
+		for _, o := range p.OriginsIP(v) {
 			if o == cancel {
 				return true
 			}
@@ -210,7 +210,7 @@ func checkCancelOrder(p *Prog, r *Report, fn *ssa.Function, rule, rule3 string) 
 		if doneV == nil {
 			return false
 		}
-		for _, o := range p.Origins(v) {
+		for _, o := range p.OriginsIP(v) {
 			if o == doneV {
 				return true
 			}
@@ -264,7 +264,18 @@ func checkCancelOrder(p *Prog, r *Report, fn *ssa.Function, rule, rule3 string) 
 	}
 	// R1b: goroutines that invoke cancel
 	n := 0
-	for _, g := range fn.AnonFuncs {
+	cancelCands := append([]*ssa.Function{}, fn.AnonFuncs...)
+	// a goroutine may also be a named function started with `go f(done, delay, cancel)`
+	for _, b := range fn.Blocks {
+		for _, in := range b.Instrs {
+			if g, isGo := in.(*ssa.Go); isGo {
+				if t := StaticCallee(&g.Call); t != nil && t.Parent() == nil && t.Pkg == fn.Pkg {
+					cancelCands = append(cancelCands, t)
+				}
+			}
+		}
+	}
+	for _, g := range cancelCands {
 		invokes := false
 		for _, b := range g.Blocks {
 			for _, in := range b.Instrs {
@@ -395,7 +406,7 @@ func checkCancelOrder(p *Prog, r *Report, fn *ssa.Function, rule, rule3 string) 
 				_, f, ok := fieldLoad(s.Resolve(timerDur))
 				if !ok {
 					// a once-assigned local copy of the configured delay (possibly captured by the goroutine)
-					_, f, ok = fieldLoad(throughOnceAssigned(p, s.Resolve(timerDur)))
+					_, f, ok = fieldLoad(throughOnceAssigned(p, throughParam(p, throughOnceAssigned(p, s.Resolve(timerDur)))))
 				}
 				r.Check(ok && f == "exitDelay", rule, key, p.Pos(g.Pos()), "the awaited duration is the configuration's exitDelay", "timer duration is "+s.Term(timerDur), s.Describe(p)...)
 			}
@@ -610,6 +621,22 @@ func throughOnceAssigned(p *Prog, v ssa.Value) ssa.Value {
 			return v
 		}
 		v = st[0]
+	}
+	return v
+}
+
+// throughParam: a parameter bound to exactly one argument in the repository stands for that argument.
+func throughParam(p *Prog, v ssa.Value) ssa.Value {
+	for i := 0; i < 3; i++ {
+		prm, ok := v.(*ssa.Parameter)
+		if !ok {
+			return v
+		}
+		args := p.ArgsBoundTo(prm)
+		if len(args) != 1 {
+			return v
+		}
+		v = args[0]
 	}
 	return v
 }
